@@ -110,6 +110,8 @@ def range_menu(freq):
     # must not be applied to another
     lo_abs, hi_abs = f[0] + 0.27 * (f[-1] - f[0]), f[0] + 0.81 * (f[-1] - f[0])
     menu += [(lo_abs, hi_abs), (lo_abs, None), (None, hi_abs)]
+    # a limit of exactly zero is a limit (below every sample), not "no limit"
+    menu += [(None, 0.0), (0.0, 0.0), (0.0, None), (0, f[n - 2])]
     return menu
 
 
@@ -160,6 +162,13 @@ class System:
         self.freq = A.GRIDS[root["grid"]](F)
         self.menu_ops = [dict(op="U", rng=list(r), kw=k) for r in range_menu(self.freq)
                          for k in KWARGS]
+        # peak options that scipy refuses (ValueError): the call must leave the object exactly as it was
+        self.menu_ops += [dict(op="U", rng=list(r), kw={"distance": 0}, refused=True)
+                          for r in range_menu(self.freq)[1:4]]
+        if self.kind == "azi":
+            # a range given to ONE azimuth only, through the member object (the container is updated afterwards
+            # by other operations of the menu)
+            self.menu_ops += [dict(op="U", rng=list(r), kw=None, member=1) for r in range_menu(self.freq)[1:4]]
         if root.get("typed"):
             # the same limits spelled with every real number type and container a caller may hold them in
             self.menu_ops = [dict(op="U", rng=list(r), kw=None, rtype=t) for r in range_menu(self.freq)
@@ -209,6 +218,27 @@ class System:
                 h.shared_list = [None, None]
             h.shared_list[0], h.shared_list[1] = rng
             arg = h.shared_list
+        if op.get("refused"):
+            try:
+                h.obj.update_peaks_bounded(search_range_in_hz=arg, find_peaks_kwargs=dict(kw))
+            except ValueError:
+                h.after_refused = True          # the model state (range, options, member ranges) is unchanged
+                return ("raised", "ValueError")
+            except Exception as e:      # noqa: BLE001
+                h.raised = type(e).__name__
+                return ("raised", type(e).__name__)
+            h.silent_refused = True
+            return None
+        h.after_refused = False
+        if op.get("member") is not None:
+            try:
+                h.obj.hvsrs[op["member"]].update_peaks_bounded(search_range_in_hz=arg, find_peaks_kwargs=kw)
+            except Exception as e:      # noqa: BLE001
+                h.raised = type(e).__name__
+                return ("raised", type(e).__name__)
+            h.member_rng = dict(getattr(h, "member_rng", {}))
+            h.member_rng[op["member"]] = (rng, kw)
+            return None
         try:
             h.obj.update_peaks_bounded(search_range_in_hz=arg, find_peaks_kwargs=kw)
         except Exception as e:          # noqa: BLE001 - outcome, judged by the invariant
@@ -216,10 +246,13 @@ class System:
             h.raised = type(e).__name__
             return ("raised", type(e).__name__)
         h.rng, h.kw = rng, kw
+        h.member_rng = {}
         return None
 
     def canon(self, h):
-        return (_norm_rng(h.rng), None if h.kw is None else "{}")
+        members = tuple(sorted((k, _norm_rng(v[0])) for k, v in getattr(h, "member_rng", {}).items()))
+        return (_norm_rng(h.rng), None if h.kw is None else "{}", members,
+                bool(getattr(h, "after_refused", False)), bool(getattr(h, "silent_refused", False)))
 
     def _trad_obs(self, t):
         return (tuple(np.asarray(t.valid_window_boolean_mask).tolist()),
@@ -246,6 +279,24 @@ class System:
                           detail=dict(hist=list(hist)), observed=h.raised,
                           explanation="update_peaks_bounded raised")
             return
+        if getattr(h, "silent_refused", False):
+            ctx.violation(f"C08:{self.kind}:refused-peak-options:accepted-without-a-search", root,
+                          detail=dict(hist=list(hist)),
+                          explanation="update_peaks_bounded returned normally for peak options that scipy refuses: "
+                                      "no peak can have been evaluated for the range given")
+            return
+        if getattr(h, "after_refused", False):
+            ctx.count("states_after_a_refused_update")
+            recorded = [getattr(t, "_search_range_in_hz", None) for t in
+                        ([o] if self.kind != "azi" else list(o.hvsrs))]
+            want = [_norm_rng(getattr(h, "member_rng", {}).get(i, (rng,))[0]) for i in range(len(recorded))]
+            got = [None if r is None else _norm_rng(r) for r in recorded]
+            if got != want:
+                ctx.violation(f"C08:{self.kind}:refused-update:object-records-the-refused-range", root,
+                              detail=dict(hist=list(hist)), expected=want, observed=got,
+                              explanation="after update_peaks_bounded raised (peak options refused by scipy) the "
+                                          "object records the range of the refused call although its peaks are "
+                                          "those of the range before")
         ctx.count("validated")
         if self.kind in ("curve", "diffuse"):
             y = self.curves[0]
@@ -270,7 +321,9 @@ class System:
             return
         trads = [o] if self.kind == "trad" else list(o.hvsrs)
         csets = [self.curves] if self.kind == "trad" else self.curves_by_az
+        rng_all, kw_all = rng, h.kw
         for ai, (t, cs) in enumerate(zip(trads, csets)):
+            rng, kw_here = getattr(h, "member_rng", {}).get(ai, (rng_all, kw_all))
             vp = np.asarray(t.valid_peak_boolean_mask)
             pfs = list(t.peak_frequencies)
             pas = list(t.peak_amplitudes)
@@ -301,7 +354,7 @@ class System:
                             extra=dict(window=wi, azimuth=ai))
                 # consistency with a single curve object
                 c = HvsrCurve(self.freq, y)
-                c.update_peaks_bounded(search_range_in_hz=rng, find_peaks_kwargs=h.kw)
+                c.update_peaks_bounded(search_range_in_hz=rng, find_peaks_kwargs=kw_here)
                 if not (_f(c.peak_frequency) == _f(pf) and _f(c.peak_amplitude) == _f(pa)):
                     ctx.violation(f"C08:{self.kind}:window-vs-HvsrCurve", root,
                                   detail=dict(hist=list(hist), window=wi, azimuth=ai),
@@ -312,8 +365,8 @@ class System:
                 ctx.outcome(("w", _f(pf)))
             # mean-curve peak of this object with the current range
             self._judge_mean(ctx, root, hist, t, rng, f"{self.kind}:az{ai}")
-        if self.kind == "azi":
-            self._judge_mean(ctx, root, hist, o, rng, "azi:all")
+        if self.kind == "azi" and not getattr(h, "member_rng", {}):
+            self._judge_mean(ctx, root, hist, o, rng_all, "azi:all")
 
     def _judge_mean(self, ctx, root, hist, t, rng, tag):
         for d in DISTS:
@@ -337,6 +390,47 @@ class System:
             ctx.violation(f"C08:{site}:{tag}", root,
                           detail=dict(hist=list(hist), range=list(rng), curve=y, **(extra or {})),
                           observed=[_f(pf), _f(pa)], explanation=text)
+
+
+class PairSystem:
+    """Two LIVE objects with the same curve values on two grids that share length and end points; every range
+    update is applied to one and right after it to the other (both orders), with limits that are the same
+    numbers in Hz on both grids.  Each object is judged with its own grid."""
+
+    def __init__(self, root):
+        self.root = root
+        self.subs = [System(dict(root, grid=g, pair=None)) for g in root["pair"]]
+        keep = []
+        for op in self.subs[0].menu_ops:
+            r = tuple(op["rng"])
+            if op.get("refused") or op.get("member") is not None or op.get("rtype") or op.get("shared"):
+                continue
+            if any(tuple(o["rng"]) == r and o["kw"] == op["kw"] for o in self.subs[1].menu_ops
+                   if not (o.get("refused") or o.get("member") is not None)):
+                keep.append(op)
+        self.menu_ops = [dict(op, order=order) for op in keep for order in ((0, 1), (1, 0))]
+
+    def initial(self, root):
+        return [sub.initial(root) for sub in self.subs]
+
+    def menu(self, hs):
+        return self.menu_ops
+
+    def apply(self, hs, op):
+        out = None
+        for i in op["order"]:
+            out = self.subs[i].apply(hs[i], {k: v for k, v in op.items() if k != "order"}) or out
+        return out
+
+    def canon(self, hs):
+        return tuple(sub.canon(h) for sub, h in zip(self.subs, hs))
+
+    def observe(self, hs):
+        return tuple(sub.observe(h) for sub, h in zip(self.subs, hs))
+
+    def invariant(self, hs, hist, ctx, root):
+        for sub, h in zip(self.subs, hs):
+            sub.invariant(h, hist, ctx, root)
 
 
 def _f(v):
@@ -380,6 +474,13 @@ def roots(tier, seed):
             out.append(dict(kind="trad", grid="lin", grids=["lin", "same"], F=7, shapes=s, depth=1))
             out.append(dict(kind="trad", grid="lin", grids=["same", "lin"], F=7, shapes=s, depth=1))
         out += _extra_roots(peaked[::16], [["p2", "twopk", "up"]], [["p4", "flat", "plateau"]])
+        # two live objects on two grids with equal length and end points, updated one right after the other
+        for vals in peaked[::8]:
+            out.append(dict(kind="curve", grid="lin", pair=["lin", "same"], values=vals, depth=1))
+        for vals in peaked[3::24]:
+            out.append(dict(kind="diffuse", grid="lin", pair=["same", "lin"], values=vals, depth=1))
+        for s in (["p3", "q3", "p4"], ["p2", "twopk", "up"]):
+            out.append(dict(kind="trad", grid="lin", pair=["lin", "same"], F=7, shapes=s, depth=1))
         # every small curve also as a WINDOW of a traditional result (three per object), long plateaus included
         allc = A.all_curves(7, (1, 2, 3))
         for k in range(0, len(allc) - 2, 27):
@@ -408,6 +509,12 @@ def roots(tier, seed):
         for a, b in itertools.product(trip, repeat=2):
             out.append(dict(kind="azi", grid="lin", F=7, depth=3, shapes_by_az=[a, b]))
         out += _extra_roots(peaked[::5], trip[:3], trip[:3])
+        for vals in peaked[::2]:
+            out.append(dict(kind="curve", grid="lin", pair=["lin", "same"], values=vals, depth=2))
+        for vals in peaked[1::6]:
+            out.append(dict(kind="diffuse", grid="lin", pair=["same", "lin"], values=vals, depth=2))
+        for r in A.curve_set_roots([3], 7, A.REDUCED_SHAPES + ["p3"], grids=("lin",)):
+            out.append(dict(kind="trad", pair=["lin", "same"], depth=1, **r))
         allc = A.all_curves(7, (1, 2, 3))
         for k in range(0, len(allc) - 2, 3):
             out.append(dict(kind="trad", grid="lin", rows=allc[k:k + 3], depth=1))
@@ -451,7 +558,7 @@ def run_root(root, ctx, tier):
             del sub["grids"]
             run_root(sub, ctx, tier)
         return
-    sysm = System(root)
+    sysm = PairSystem(root) if root.get("pair") else System(root)
     explorer.bfs(sysm, root, root["depth"], ctx, key_prefix=f"C08:{root['kind']}",
                  check_determinism=False, touch=True)   # peaks are read after every range update
     ctx.nontrivial_case(("root", root.get("values") or root.get("shapes") or root.get("shapes_by_az") or root.get("rows"),
@@ -465,12 +572,12 @@ def describe(tier):
         rule="roots: every curve over {1,2,3} of length 6 (quick) / 7 (thorough) as HvsrCurve, "
              "length 5/6 as HvsrDiffuseField, products of named shapes as HvsrTraditional and "
              "2-azimuth HvsrAzimuthal; BFS over all sequences of update_peaks_bounded from a menu "
-             "of 17 ranges x 2 kwargs up to the root's depth; further roots apply an amplitude transform (2 + 1e-6 v, "
+             "of 21 ranges x 2 kwargs up to the root's depth; further roots apply an amplitude transform (2 + 1e-6 v, "
              "1e-9 v, 1e12 v), spell the limits of every range with every real number type (float, int, np.float64, "
              "np.float32, np.int64, np.int32; tuple or list) or drive all range updates of a history through ONE "
              "caller-owned list that is edited in place between calls; a root is non-trivial/distinct by its "
              "(kind, grid, curve values/shapes)",
-        bounds=dict(depth="1-2 quick, 2-3 thorough", ranges=17, kwargs=2, amplitude_transforms=[list(a) for a in AMPS], limit_types=list(RANGE_TYPES)),
+        bounds=dict(depth="1-2 quick, 2-3 thorough", ranges=21, kwargs=2, amplitude_transforms=[list(a) for a in AMPS], limit_types=list(RANGE_TYPES)),
         exhaustive=True,
         assumptions=["peaks adjacent to a range limit may or may not be candidates (weakest reading)",
                      "position within a flat-topped peak is not pinned"])
